@@ -21,18 +21,20 @@ func absPath(path string) string {
 
 // findProject creates new Project instance by finding a project which the given path belongs to.
 // A project must be a Git repository and have ".github/workflows" directory.
-func findProject(path string) (*Project, error) {
+// findProjectRoot returns the root directory of the innermost project which contains the path. It
+// returns an empty string when no project is found.
+func findProjectRoot(path string) string {
 	d := absPath(path)
 	for {
 		if s, err := os.Stat(filepath.Join(d, ".github", "workflows")); err == nil && s.IsDir() {
 			if _, err := os.Stat(filepath.Join(d, ".git")); err == nil { // Note: .git may be a file
-				return NewProject(d)
+				return d
 			}
 		}
 
 		p := filepath.Dir(d)
 		if p == d {
-			return nil, nil
+			return ""
 		}
 		d = p
 	}
@@ -90,19 +92,23 @@ func NewProjects() *Projects {
 // At returns the Project instance which the path belongs to. It returns nil if no project is found
 // from the path.
 func (ps *Projects) At(path string) (*Project, error) {
+	// A known project which contains the path is not always the answer. The path may belong to another
+	// project nested in it (e.g. a vendored repository). Find the innermost project root at first.
+	root := findProjectRoot(path)
+	if root == "" {
+		return nil, nil
+	}
 	for _, p := range ps.known {
-		if p.Knows(path) {
+		if p.RootDir() == root {
 			return p, nil
 		}
 	}
 
-	p, err := findProject(path)
+	p, err := NewProject(root)
 	if err != nil {
 		return nil, err
 	}
-	if p != nil {
-		ps.known = append(ps.known, p)
-	}
+	ps.known = append(ps.known, p)
 
 	return p, nil
 }
